@@ -19,6 +19,7 @@
 #include <nitro/log/filter/severity_filter.hpp>
 #include <nitro/log/sink/sequence.hpp>
 
+#include <functional>
 #include <memory>
 #include <string>
 #include <vector>
@@ -128,6 +129,13 @@ struct Callable
     }
 };
 
+static std::string g_fp_text;
+static std::string fp_callable()
+{
+    ++g_calls;
+    return g_fp_text;
+}
+
 struct Items
 {
     const J& a;
@@ -201,6 +209,23 @@ struct Holder : HolderBase
         {
             long v = static_cast<long>(item["v"].num());
             s << v;
+        }
+        else if (t == "f")
+        {
+            // every kind of callable that yields a string is evaluated lazily: std::function ...
+            std::string text = item["v"].str();
+            std::function<std::string()> f = [text]() {
+                ++g_calls;
+                return text;
+            };
+            s << f;
+        }
+        else if (t == "p")
+        {
+            // ... and a plain function pointer
+            g_fp_text = item["v"].str();
+            std::string (*fp)() = &fp_callable;
+            s << fp;
         }
         else
         {
